@@ -20,6 +20,9 @@ ActsCopyOnly == {"construct", "construct_first_only", "copy"}
 ActsEq == {"construct", "assign", "meta_small", "copy", "copywith"}
 ClsEq == {"CirclePix", "PolygonPix", "LinePix", "CircleSky", "RectanglePix"}
 ClsEqSmall == {"CirclePix", "PolygonPix", "CircleSky"}
+ClsSiblings == {"RectanglePix", "EllipseAnnulusSky"}
 NoDev == {}
+NoExtra == {}
+TolProbes == {"pFar", "pFarC", "pO", "pOc"}
 DevKnown == {"AssignAnnulusUnchecked"}
 =============================================================================
